@@ -1,0 +1,54 @@
+//go:build verif
+
+package quicwire
+
+// C22, length-prefixed helpers and fixed-width readers: truncated input is reported as -1 and
+// nothing is read past the input (every slice expression is a no-panic obligation: a result that
+// reaches beyond len(b) cannot be formed without failing one when cap(b) == len(b), and the
+// postconditions pin the result to the bytes of b).
+
+//@ func ConsumeUint8Bytes(b) (r, n)
+//@   ensures  len(b) == 0 ==> n == -1
+//@   ensures  len(b) > 0 && int(b[0]) > len(b) - 1 ==> n == -1
+//@   ensures  len(b) > 0 && int(b[0]) <= len(b) - 1 ==> n == 1 + int(b[0]) && len(r) == int(b[0]) && samebase(r, b) && suboff(r, b) == 1
+//@   ensures  n == -1 ==> len(r) == 0
+//@   ensures  n <= len(b)
+
+//@ func ConsumeVarintBytes(b) (r, n)
+//@   ensures  len(b) == 0 ==> n == -1
+//@   ensures  len(b) > 0 && len(b) < 1<<(b[0]>>6) ==> n == -1
+//@   ensures  n != -1 ==> len(b) > 0 && n == (1<<(b[0]>>6)) + len(r) && samebase(r, b) && suboff(r, b) == 1<<(b[0]>>6)
+//@   ensures  n != -1 ==> uint64(len(r)) == beAt(b, 0, 1<<(b[0]>>6)) & (1<<(8*uint64(1<<(b[0]>>6))-2) - 1)
+//@   ensures  len(b) > 0 && len(b) >= 1<<(b[0]>>6) && beAt(b, 0, 1<<(b[0]>>6)) & (1<<(8*uint64(1<<(b[0]>>6))-2) - 1) > uint64(len(b) - (1<<(b[0]>>6))) ==> n == -1
+//@   ensures  n == -1 ==> len(r) == 0
+//@   ensures  n <= len(b)
+
+//@ func AppendUint8Bytes(b, v) (out)
+//@   requires len(v) <= 0xff
+//@   ensures  len(out) == len(b) + 1 + len(v)
+//@   ensures  out[len(b)] == uint8(len(v))
+//@   ensures  (samebase(out, b) && suboff(out, b) == 0) || fresh(out)
+//@   ensures  len(b) + 1 + len(v) > cap(b) ==> fresh(out)
+//@   ensures  forall i int :: 0 <= i && i < len(b) ==> out[i] == old(b[i])
+//@   ensures  !samebase(v, b) ==> forall i int :: 0 <= i && i < len(v) ==> out[len(b)+1+i] == old(v[i])
+//@   modifies elems(b)
+//@   allocates
+
+//@ func ConsumeUint32(b) (v, n)
+//@   ensures  len(b) < 4 ==> n == -1 && v == 0
+//@   ensures  len(b) >= 4 ==> n == 4 && v == uint32(b[0])<<24 | uint32(b[1])<<16 | uint32(b[2])<<8 | uint32(b[3])
+
+//@ func ConsumeUint64(b) (v, n)
+//@   ensures  len(b) < 8 ==> n == -1 && v == 0
+//@   ensures  len(b) >= 8 ==> n == 8 && uint64(beAt(b, 0, 8)) == v
+
+// lemmaUint8BytesRoundTrip: what AppendUint8Bytes wrote is read back, with any prefix.
+//
+//@ lemma
+//@ requires len(v) <= 0xff
+//@ ensures ok
+func lemmaUint8BytesRoundTrip(pre, v []byte) (ok bool) {
+	b := AppendUint8Bytes(pre, v)
+	r, n := ConsumeUint8Bytes(b[len(pre):])
+	return n == 1+len(v) && len(r) == len(v)
+}
